@@ -26,6 +26,7 @@
 #include <ascon/permutation.h>
 #include "ascon-select-backend.h"
 #include "ascon-util.h"
+#include "ascon-verif.h"
 
 #if defined(ASCON_BACKEND_C64) || defined(ASCON_BACKEND_C64_DIRECT_XOR)
 
@@ -63,7 +64,9 @@ void ascon_permute(ascon_state_t *state, uint8_t first_round)
     uint64_t x4 = state->S[4];
 #endif
     x2 = ~x2;
-    while (first_round < 12) {
+    while (first_round < 12)
+    ASCON_VERIF_LOOP(permute_c64)
+    {
         /* Add the round constant to the state */
         x2 ^= RC[first_round];
 
